@@ -548,7 +548,7 @@ def classify(job, res, known):
             continue
         if 'must_fail' in p['desc']:
             continue
-        if 'no body for callee' in p['desc'] or '.no-body.' in p['name']:
+        if 'no body for callee' in p['desc'] or '.no-body.' in p['name'] or 'undefined function should be unreachable' in p['desc']:
             problems.append('%s: lowering/stub gap: %s' % (job.id, p['desc']))
             continue
         if 'verif_model_bound' in p['desc'] or 'unwinding assertion' in p['desc'] or '.unwind.' in p['name']:
